@@ -103,6 +103,23 @@ class StreamProxy:
         return getattr(self._inner, name)
 
 
+async def kill_task(task: "asyncio.Future", attempts: int = 40) -> bool:
+    """Cancel a task that may swallow cancellations (a cancel that coincides with an anyio
+    deadline is absorbed by the scope): retry at odd virtual offsets, then give up."""
+    for _ in range(attempts):
+        if task.done():
+            break
+        task.cancel()
+        await asyncio.wait([task], timeout=0.0137)
+    if task.done():
+        try:
+            task.exception()
+        except BaseException:
+            pass
+        return True
+    return False
+
+
 def subst(obj: Any, mapping: Dict[str, Any]) -> Any:
     if isinstance(obj, str):
         return mapping.get(obj, obj)
@@ -153,6 +170,7 @@ def drive(
     side: Optional[Callable[[DriveResult, RecordingSend], Awaitable[None]]] = None,
     wait_first_write: bool = True,
     settle: float = 0.0,
+    max_vtime: float = 3600.0,
 ) -> DriveResult:
     """schedule: list of (t, wire_template).  A template that is a dict with key "$raw"
     is delivered as the Python object under that key (after substitution) without parsing."""
@@ -190,8 +208,15 @@ def drive(
         ftask = asyncio.ensure_future(feeder())
         stask = asyncio.ensure_future(side(res, rec)) if side is not None else None
         try:
-            res.value = await call(StreamProxy(recv, res.events, 'read'), StreamProxy(rec.stream, res.events, 'write'))
-            res.outcome = "return"
+            ctask = asyncio.ensure_future(call(StreamProxy(recv, res.events, 'read'), StreamProxy(rec.stream, res.events, 'write')))
+            done, _ = await asyncio.wait([ctask], timeout=max_vtime + 0.1237)
+            if not done:
+                # watchdog: the call did not end within max_vtime virtual seconds
+                await kill_task(ctask)
+                res.outcome = "hang"
+            else:
+                res.value = ctask.result()
+                res.outcome = "return"
         except BaseException as e:  # noqa
             if isinstance(e, (KeyboardInterrupt, SystemExit)):
                 raise
@@ -202,11 +227,7 @@ def drive(
             await asyncio.sleep(settle)
         for tk in (ftask, stask):
             if tk is not None:
-                tk.cancel()
-                try:
-                    await tk
-                except BaseException:
-                    pass
+                await kill_task(tk)
         await rec.finish()
         res.written_raw = list(rec.items)
         res.written = [(t, wire_of(m)) for t, m in rec.items]
